@@ -137,7 +137,7 @@ func c12Gen(seed int64, idx int) c12Case {
 			c12Shuffle(r, m, true)
 		}
 	case 8:
-		if (idx/10)%7 == 4 {
+		if (idx/10)%8 == 4 {
 			// augments whose target is a choice and that add cases in short form (a data node directly under
 			// the augment), at module level and inside a uses: each added node is a case of its own
 			head := func() *yang.Stmt {
@@ -165,7 +165,7 @@ func c12Gen(seed int64, idx int) c12Case {
 			c.inlined = &yang.ModSet{Mods: []*yang.Stmt{inl}}
 			return c
 		}
-		if (idx/10)%7 == 5 {
+		if (idx/10)%8 == 5 {
 			// a second module augments a choice with nodes in short form: each stands in a case of its own, and that
 			// case is as much a node of the augmenting module as one written out with the case keyword
 			str := func(n string) *yang.Stmt { return yang.S("leaf", n, yang.S("type", "string")) }
@@ -191,7 +191,34 @@ func c12Gen(seed int64, idx int) c12Case {
 			c.augmentedBy = map[string]string{"sh": "fx-cb", "shc": "fx-cb", "shl": "fx-cb", "late": "fx-cb", "l1": "fx-cb", "y": "fx-cb"}
 			return c
 		}
-		if (idx/10)%7 == 6 {
+		if (idx/10)%8 == 7 {
+			// groupings defined in a container and in a list of a SUBMODULE, used where they are defined (a grouping
+			// is looked up from the scope of its uses outwards, in a submodule as in a module)
+			str := func(n string) *yang.Stmt { return yang.S("leaf", n, yang.S("type", "string")) }
+			mod := func() *yang.Stmt {
+				return yang.S("module", "fx-sm", yang.S("namespace", "urn:verif:fx-sm"), yang.S("prefix", "sm"), yang.S("include", "fx-sm-sub"), yang.S("container", "in-module", str("m1")))
+			}
+			sub := func(inline bool) *yang.Stmt {
+				s := yang.S("submodule", "fx-sm-sub", yang.S("belongs-to", "fx-sm", yang.S("prefix", "sm")))
+				if inline {
+					s.Add(yang.S("container", "sc", str("x"), yang.S("container", "xc", str("deep")), str("own")),
+						yang.S("list", "sl", yang.S("key", "k"), str("k"), str("y")),
+						// (what the uses at the top of the submodule introduces, its augment applied once)
+						yang.S("container", "tc", str("sel"), yang.S("leaf", "ty", yang.S("type", "string"), yang.S("when", "sel = 'a'"))))
+				} else {
+					s.Add(yang.S("container", "sc", yang.S("grouping", "g", str("x"), yang.S("container", "xc", str("deep"))), yang.S("uses", "g"), str("own")),
+						yang.S("list", "sl", yang.S("key", "k"), str("k"), yang.S("grouping", "g2", str("y")), yang.S("uses", "sm:g2")),
+						yang.S("grouping", "tg", yang.S("container", "tc", str("sel"))),
+						yang.S("uses", "tg", yang.S("augment", "tc", yang.S("when", "sel = 'a'"), str("ty"))))
+				}
+				return s
+			}
+			c.ms = &yang.ModSet{Mods: []*yang.Stmt{mod(), sub(false)}}
+			c.inlined = &yang.ModSet{Mods: []*yang.Stmt{mod(), sub(true)}}
+			c.inheritedWhens = map[string]bool{"sel = 'a'": true}
+			return c
+		}
+		if (idx/10)%8 == 6 {
 			// a when on a uses whose grouping uses another grouping with a when of its own (and the same with an augment
 			// in between): a node of the inner grouping is there only if both hold.  No single module text can say that
 			// with when statements (a node takes one), so the expectation is stated on the compiled node.
@@ -207,12 +234,12 @@ func c12Gen(seed int64, idx int) c12Case {
 				"top/i1": {"sel = 'a'", "selb = 'b'"}, "top/ic": {"sel = 'a'", "selb = 'b'"}, "top/o1": {"sel = 'a'"}, "top/ic/deep": {},
 				"top2/i1": {"sel = 'x'", "selb = 'y'"}, "top2/ic": {"sel = 'x'", "selb = 'y'"},
 			}
-			if (idx/70)%2 == 1 {
+			if (idx/80)%2 == 1 {
 				c12Shuffle(r, src, true)
 			}
 			return c
 		}
-		if (idx/10)%7 == 3 {
+		if (idx/10)%8 == 3 {
 			// context node of a when written on a uses, and on an augment inside that uses whose body
 			// holds a further uses: every introduced node carries the when, to be run on its parent
 			head := func() *yang.Stmt {
@@ -236,7 +263,7 @@ func c12Gen(seed int64, idx int) c12Case {
 			c.inheritedWhens = map[string]bool{"sel = 'a'": true, "sel2 = 'b'": true}
 			return c
 		}
-		if (idx/10)%7 == 2 {
+		if (idx/10)%8 == 2 {
 			// two different groupings named x in disjoint scopes, one reached from the other: x (in a1) uses y,
 			// y contains its own x and uses it.  No grouping refers to itself.
 			head := func() *yang.Stmt {
@@ -277,7 +304,7 @@ func c12Gen(seed int64, idx int) c12Case {
 			yang.S("typedef", "x", yang.S("type", "string", yang.S("length", "1..9"))),
 			yang.S("grouping", "h", yang.S("leaf", "h-of-lib", yang.S("type", "string"))))
 		c.inlined = &yang.ModSet{Mods: []*yang.Stmt{inl, libInl}}
-		if (idx/10)%7 == 1 {
+		if (idx/10)%8 == 1 {
 			c12Shuffle(r, user, true)
 		}
 		return c
